@@ -27,6 +27,9 @@ def value_specs(p, h):
     n = p["nvals"]
     for i in range(n):
         text = ("val%d" % (i + 1)) if p["vtext"] == "plain" else ("al,pha%d" % (i + 1)) if p["vtext"] == "comma" else ["0", "0.0", "False"][i]
+        if p["vtext"] == "blankfirst":
+            # the usual 1.0 way to type a Property: a first value element without text that only carries attributes
+            text = "" if i == 0 else "val%d" % (i + 1)
         at = {}
         for a in ATTR10:
             pl = p[a]
@@ -44,6 +47,8 @@ def value_specs(p, h):
                 at[ATTR10[a]] = AVAL[a][i % 3]
         if p["vextra"] and i == 0:
             at["checksum"] = "crc32$abc"
+        if p["vtext"] == "blankfirst" and i == 0 and "type" not in at:
+            at["type"] = "string"
         out.append((text, at))
     return out
 
@@ -82,7 +87,8 @@ def render_xml(g):
                 ET.SubElement(e, "dependency_value").text = "depv"
             for text, at in value_specs(p, h):
                 v = ET.SubElement(e, "value")
-                v.text = text
+                if text != "":
+                    v.text = text
                 for k, val in at.items():
                     ET.SubElement(v, k).text = val
     # sections must come after properties inside a section? order is free in 1.0; keep as built
@@ -105,6 +111,8 @@ def render_dict(g):
         vals = []
         for text, at in value_specs(p, h):
             v = {"value": {"0": 0, "0.0": 0.0, "False": False}.get(text, text) if p["vtext"] == "falsy" else text}
+            if text == "":
+                v = {}
             v.update(at)
             vals.append(v)
         if vals:
@@ -149,7 +157,7 @@ def src_facts(g):
                 vals = ["text" if v == "binary" else v for v in vals]
             cands[key] = vals
         props[h] = {"name": p["name"], "named": p["named"], "idc": p["idc"], "extra": p["extra"], "vextra": p["vextra"] and p["nvals"] > 0,
-                    "vals": [t for t, _ in vs], "cands": cands, "depval": "depv" if p["depval"] else "none",
+                    "vals": [t for t, _ in vs if t != ""], "cands": cands, "depval": "depv" if p["depval"] else "none",
                     "binary": p["dtype"] == "binary" and p["nvals"] > 0}
     return {"secs": secs, "props": props, "docidc": g["d1"]["idc"], "docextra": g["d1"]["extra"]}
 
